@@ -126,3 +126,39 @@ backends = [ {{ address = "127.0.0.1:9001" }} ]
     );
 }
 
+/// P4: an HTTPS listener that declares a default `certificate` but no `key`
+/// (or a key file that cannot be read: to_tls swallows the error).  A
+/// frontend without certificate of its own inherits certificate = Some,
+/// key = None and is replayed as a plain AddHttpFrontend on the HTTPS address.
+#[test]
+fn p4_https_listener_certificate_without_key() {
+    let toml = format!(
+        r#"
+command_socket = "/tmp/sozu_probe.sock"
+worker_count = 1
+
+[[listeners]]
+protocol = "https"
+address = "127.0.0.1:8443"
+certificate = "{CERT}"
+
+[clusters.web]
+protocol = "http"
+frontends = [ {{ address = "127.0.0.1:8443", hostname = "example.com" }} ]
+backends = [ {{ address = "127.0.0.1:9001" }} ]
+"#
+    );
+    let result = rejected_or_fully_applied(&toml, "p4");
+    assert!(result.is_ok(), "refused by a fresh state: {:#?}", result.err());
+    if let Ok(Some(state)) = result {
+        assert_eq!(
+            orphans(&state),
+            Vec::<String>::new(),
+            "accepted at load time with {} HTTP / {} HTTPS frontend(s), {} certificate bucket(s)",
+            state.http_fronts.len(),
+            state.https_fronts.len(),
+            state.certificates.len()
+        );
+    }
+}
+
